@@ -123,6 +123,10 @@ def c02(v):
         for c in v.children[s]:
             spec = v.spec[c]
             f = v.fin(c)
+            if f is None and v.evs('selfcancel', c):
+                # a body that ended by raising CancelledError by itself did
+                # run to its own end
+                f = v.evs('selfcancel', c)[0]
             if f is not None:
                 fins.append(f)
             if spec.get('forever'):
@@ -507,6 +511,22 @@ def check_abort(v, s, seq0, t0, tag, what, cause_iter=None):
     for d in v.descendants(s):
         if d in kids:
             continue
+        # a job deeper inside s that is executing at the abort is cancelled
+        # (or finishes by itself) at that instant too
+        if v.inside(d, seq0 + 1) and not v.is_sched(d) \
+                and not [e for e in v.all(CANCELS, d) if e[SEQ] <= seq0]:
+            # (a job whose cancellation was already requested, e.g. by its
+            # own scheduler's timeout, is on its way out)
+            x = [e for e in v.all(CANCELS + tuple(mc.FIN), d)
+                 if e[SEQ] > seq0]
+            if not x or x[0][T] != t0:
+                viols.append((tag + ':not-cancelled:nested',
+                              "%s (nested inside %s) is executing when %s at "
+                              "t=%s (#%d) but %s"
+                              % (d, s, what, t0, seq0,
+                                 "is never cancelled" if not x else
+                                 "only gets %s at t=%s" % (x[0][KIND],
+                                                           x[0][T]))))
         for b in v.all(mc.BEGIN, d):
             if b[SEQ] <= seq0:
                 continue
